@@ -172,7 +172,8 @@ Proof.
     assert (Hv : v < 2 ^ 72) by lia.
     assert (Hh : (if hex_digits v <? 18 then 18 else hex_digits v) = 18).
     { pose proof (hex_digits_le v Hv). destruct (hex_digits v <? 18) eqn:E; lia. }
-    exists ([0] ++ be 9 v). split; [cbn [construct_esi]; cbv zeta; rewrite Hh; reflexivity|].
+    assert (Hr : (4722366482869645213696 <=? v) = false) by (apply N.leb_gt; exact Hv).
+    exists ([0] ++ be 9 v). split; [cbn [construct_esi]; cbv zeta; rewrite Hr, Hh; reflexivity|].
     split; [rewrite app_length, length_be; reflexivity|].
     cbn [app parse_esi]. closed_eqb. slices.
     rewrite int_of_hex_be by (try exact Hv; lia). reflexivity.
